@@ -487,3 +487,128 @@ def validate_table_reader(run, n=150):
                 if bad <= 2:
                     run.tie_broken("translator", "generated _findIndex / getValue vs the real ones", "rows %s x=%s: real (%r, %r) generated (%r, %s)" % ([(str(x), str(y)) for x, y in rows], q, ri, rv, gi, gv))
     return len(cases)
+
+
+def validate_cli_operations(run, n=200):
+    """the regenerated command-line layer (_create_override_tuple, _item_id, the ordered dictionary of _make_config_parser) against the real function, whose final
+    `ConfigParser(...)` call is intercepted: the two lists it is handed are compared (options with ':' and '=' in sections and values, whitespace variants of keys,
+    repeated items, malformed options)"""
+    import atsim.potentials.tools.potable as pt
+    ok, log = build_gen()
+    if not ok:
+        run.tie_broken("translator", "Gen/Logic.lean (command-line layer)", "the regenerated definitions (or their driver) do not build: " + log[-600:])
+        return 0
+    rng = run.rng
+    secs = ["Pair", "Potential-Form", "Table-Form:tab", "Variables", "Notes"]
+    keys = ["A-B", "A - B", "f(r,a)", "f(r, a)", "f (r ,\ta)", "x", "nr"]
+    vals = ["as.buck 1.0 0.3 0.0", "a=b", "if(r >= 1, a, 2*a)", "", "x:y", " padded "]
+
+    def opt(has_value):
+        r = rng.random()
+        if r < 0.06:
+            return rng.choice(["nocolon", "Pair", "=v", "Pair:A-B" if has_value else "nocolon"])        # malformed (no '=' where one is needed, no ':')
+        t = "%s:%s" % (rng.choice(secs), rng.choice(keys))
+        return t + ("=" + rng.choice(vals) if has_value else "")
+
+    def group(has_value):
+        if rng.random() < 0.25:
+            return None
+        return [[opt(has_value) for _ in range(rng.randint(0, 3))] for _g in range(rng.randint(0, 3))]
+    cases = [(group(True), group(True), group(False)) for _ in range(n)]
+    answers = query_gen([dict(op="cli_operations", overrides=o, additional=a, removes=r) for o, a, r in cases])
+    captured = {}
+
+    class _Capture(object):
+        def __init__(self, fp, overrides=None, additional=None):
+            captured["o"], captured["a"] = overrides, additional
+    orig = pt.ConfigParser
+    bad = 0
+    try:
+        pt.ConfigParser = _Capture
+        for (o, a, r), ans in zip(cases, answers):
+            try:
+                pt._make_config_parser(None, o, a, r, None, None)
+                real = dict(overrides=[[t.section, t.key, t.value] for t in captured["o"]], additional=[[t.section, t.key, t.value] for t in captured["a"]])
+            except ValueError:
+                real = "malformedOption"
+            run.traces += 1
+            run.dist["translator-validation/cli_operations"] += 1
+            if real != ans:
+                bad += 1
+                if bad <= 2:
+                    run.tie_broken("translator", "generated command-line layer vs _make_config_parser", "-e %s -a %s -r %s: real %s generated %s" % (o, a, r, real, ans))
+    finally:
+        pt.ConfigParser = orig
+    return len(cases)
+
+
+def validate_tabulation_objects(run, kinds=("lammps", "dlpoly", "setfl", "setfl_fs", "tabeam", "tabeam_fs", "adp"), n=8):
+    """the regenerated `write` methods of the tabulation objects (with their `dr` / `drho` properties) against the real classes: text byte for byte and the number of
+    `write` calls reaching the destination; cutoffs chosen so that the steps are dyadic"""
+    from atsim.potentials import Potential, EAMPotential
+    from atsim.potentials import pair_tabulation as ptab, eam_tabulation as etab
+    ok, log = build_gen()
+    if not ok:
+        run.tie_broken("translator", "Gen/Logic.lean (tabulation objects)", "the regenerated definitions (or their driver) do not build: " + log[-600:])
+        return 0
+    rng = run.rng
+    cases, reqs = [], []
+    for which in kinds:
+        for _ in range(n):
+            fs = which.endswith("_fs")
+            k = rng.randint(1, 4)
+            nr = rng.choice([8, 12, 16, 10, 7]) if which == "dlpoly" else rng.randint(3 if which == "lammps" else 2, 11)      # (LAMMPS with nr = 2 divides 0 by 0: outside C01's domain)
+            cut = Fr(max(nr - 4, 1), 2 ** k) if which == "dlpoly" else Fr(nr - 1, 2 ** k) * rng.randint(1, 3)
+            nrho = rng.randint(2, 9)
+            cutrho = Fr(nrho - 1, 2 ** rng.randint(1, 4)) * rng.randint(1, 3)
+            labels = rng.sample(FAKE_LABELS, rng.randint(1, 3))
+            fid = [0]
+
+            def nf():
+                fid[0] += 1
+                return fid[0]
+            els = [dict(sp=sp, z=rng.randint(1, 90), mass=common.fq(Fr(rng.randint(2, 400), 2)), a0=common.fq(Fr(rng.randint(2, 20), 4)), lat="fcc",
+                        embed=nf(), dens=nf(), densFS=[dict(to=t, fid=nf()) for t in labels]) for sp in labels]
+            mk = lambda: [dict(a=rng.choice(labels), b=rng.choice(labels), fid=nf()) for _k in range(rng.randint(0, 3))]
+            pots, dip, quad = mk(), mk(), mk()
+            if which in ("lammps", "dlpoly"):
+                pots = pots or [dict(a="A", b="B", fid=nf())]
+            reqs.append(dict(op="tab_write", which=which, nr=nr, cut=common.fq(cut), nrho=nrho, cutrho=common.fq(cutrho), els=els, pots=pots, dipoles=dip, quadrupoles=quad))
+            cases.append((which, nr, cut, nrho, cutrho, els, pots, dip, quad))
+    bad = 0
+    for (which, nr, cut, nrho, cutrho, els, pots, dip, quad), a in zip(cases, query_gen(reqs)):
+        fs = which.endswith("_fs")
+        tracers = {0: _Zero()}
+        for e in els:
+            for f in [e["embed"], e["dens"]] + [d["fid"] for d in e["densFS"]]:
+                tracers.setdefault(f, Tracer(f))
+        for p in pots + dip + quad:
+            tracers.setdefault(p["fid"], Tracer(p["fid"]))
+        eobjs = [EAMPotential(e["sp"], e["z"], float(Fr(e["mass"])), tracers[e["embed"]],
+                              dict((d["to"], tracers[d["fid"]]) for d in e["densFS"]) if fs else tracers[e["dens"]], float(Fr(e["a0"])), e["lat"]) for e in els]
+        mkp = lambda l: [Potential(p["a"], p["b"], tracers[p["fid"]]) for p in l]
+        buf = CountingIO()
+        try:
+            if which == "lammps":
+                ptab.LAMMPS_PairTabulation(mkp(pots), float(cut), nr).write(buf)
+            elif which == "dlpoly":
+                ptab.DLPoly_PairTabulation(mkp(pots), float(cut), nr).write(buf)
+            elif which == "adp":
+                etab.ADP_EAMTabulation(mkp(pots), eobjs, mkp(dip), mkp(quad), float(cut), nr, float(cutrho), nrho).write(buf)
+            else:
+                cls = dict(setfl=etab.SetFL_EAMTabulation, setfl_fs=etab.SetFL_FS_EAMTabulation, tabeam=etab.TABEAM_EAMTabulation, tabeam_fs=etab.TABEAM_FinnisSinclair_EAMTabulation)[which]
+                cls(mkp(pots), eobjs, float(cut), nr, float(cutrho), nrho).write(buf)
+            real = buf.getvalue()
+        except Exception as e:
+            real = "raised" if type(e).__name__ in ("WritePotentialException", "KeyError") else "raised %s" % type(e).__name__
+        gen = a["toks"] if a["toks"] == "raised" else render(a["toks"], tracers)
+        run.traces += 1
+        run.dist["translator-validation/%s-tabulation-object" % which] += 1
+        if real != gen or _cls(buf.nwrites) != _cls(a["writes"]):
+            bad += 1
+            if bad <= 2:
+                run.tie_broken("translator", "generated %s tabulation object's write vs the real one" % which,
+                               "nr %s cutoff %s nrho %s cutoff_rho %s, %d element(s): %s; write calls real %d generated %d" % (
+                                   nr, cut, nrho, cutrho, len(els), "same text" if real == gen else ("real %r generated %r" % (real[:80], str(gen)[:80]) if "raised" in (real[:6], str(gen)[:6]) else _first_diff(real, gen)),
+                                   buf.nwrites, a["writes"]))
+    return len(cases)
